@@ -51,3 +51,20 @@ Theorem C04_resume_returns_all_after_start_key :
                then filter (aftb (q_forward q) (parse_start_key (t_ks t) (t_defs t) esk)) (ks t q)
                else ks t q))).
 Proof. exact resume_complete_base. Qed.
+
+(* Through a secondary index (global or local), any interpreter, key condition / filter, both directions, Limit >= 1:
+   the loop over LastEvaluatedKey ends within |index entries|+1 pages and the pages concatenate to exactly the
+   unpaginated read through the index - every entry once, in (index key, primary key) order, page boundaries inside
+   runs of equal index keys included.  IInv: the index mirrors the table (C03, every reachable state); KInv as above.
+   Non-vacuity: Witness/W04.v. *)
+From Minidyn Require Import Proofs.IndexInv Proofs.PaginationIndex.
+
+Theorem C04_pagination_complete_index :
+  forall lm c t q ev n ix,
+    q_index q = Some n -> lookup n (t_indexes t) = Some ix -> q_cond q = None ->
+    secondary (t_ks t) = false -> KInv t -> IInv (t_defs t) (t_data t) ix ->
+    (forall e, In e (ies q ix) -> match_key lm c t q (get_item t (snd e)) = Ok (ev (snd e))) ->
+    forall L, 0 < L ->
+    exists items f, search_data lm c t (with_page q 0 []) = Ok (items, [], f) /\
+                    ipages lm c t q (S (ix_count ix)) L [] = Some items.
+Proof. exact index_pagination_equals_unpaginated. Qed.
